@@ -7,7 +7,11 @@ PATCH=$(readlink -f "$1"); shift
 W=$(mktemp -d /tmp/mut-XXXXXX)
 trap 'git -C /repo worktree remove --force "$W/repo" >/dev/null 2>&1; rm -rf "$W"' EXIT
 git -C /repo worktree add -q --detach "$W/repo" ${BASE:-HEAD} || exit 3
-if [ "$(basename "$PATCH")" != none ] && ! git -C "$W/repo" apply "$PATCH"; then echo "patch does not apply"; exit 3; fi
+if [ "$(basename "$PATCH")" != none ] && ! git -C "$W/repo" apply "$PATCH" 2>/dev/null; then
+  # later fix: commits may have moved the lines; the patch records its base blobs, so a 3-way merge often still places it
+  if ! git -C "$W/repo" apply --3way "$PATCH" >/dev/null 2>&1 || git -C "$W/repo" diff --name-only --diff-filter=U | grep -q .; then echo "patch does not apply"; exit 3; fi
+  echo "(applied with 3-way merge)"
+fi
 (cd "$W/repo" && GOFLAGS=-mod=mod go build ./... ) || { echo "mutant does not compile"; exit 3; }
 mkdir -p "$W/verif"
 cp -r /verif/check /verif/checks.d /verif/known_findings.json /verif/harness "$W/verif/"
